@@ -5,7 +5,9 @@ from props import x86common
 
 
 def flagsets():
-    return None
+    # the frame-pointer flag (bit 7) changes the prologue/epilogue of every program: checked on a sample (every 6th program of
+    # the family, rotating with the seed, plus all structural extras) in both tiers
+    return {t: [('default', 'default'), ('frame-pointer', 'default|0x80')] for t in ('sse', 'avx', 'mmx')}
 
 
 def main():
@@ -13,9 +15,9 @@ def main():
     rep.bounds = dict(n='symbolic, 0..2*elements_per_vector+3 (avx capped at 36 in the quick tier); every head/tail length and <=2 main-loop iterations are feasible paths',
                       alignment='base pointers symbolic (every residue allowed by the element size)', m='1..2 rows for 2-D programs, n<=9',
                       programs='quick: every opcode once (operand kind rotates with VERIF_SEED) + every 4th x2/x4 form + structural extras; thorough: whole single-opcode family',
-                      targets='sse, avx, mmx (64-bit code)')
+                      targets='sse, avx, mmx (64-bit code)', flags='default flags for every program; default|frame-pointer for every 6th program and all structural extras')
     rep.assume(*x86common.ASSUME)
-    results, info = x86run.run(('C01', 'C03', 'C10', 'C11'), flagsets=flagsets())
+    results, info = x86run.run(('C01', 'C03', 'C10', 'C11'), flagsets=flagsets(), quick_frac=6, quick_frac_from=1, frac_always=True)
     x86common.fold('C10', 'translation_validation', results, info, rep, '')
     return rep.finish()
 
